@@ -3911,8 +3911,10 @@ def sdp(c, Gl = None, hl = None, Gs = None, hs = None, A = None, b = None,
             "matrices with %d columns" %n)
     ms = [ int(math.sqrt(G.size[0])) for G in Gs ]
     a = [ k for k in range(len(ms)) if ms[k]**2 != Gs[k].size[0] ]
-    if a: raise TypeError("the squareroot of the number of rows in "\
-        "'Gs[%d]' is not an integer" %k)
+    if a:
+        k = a[0]
+        raise TypeError("the squareroot of the number of rows in "\
+            "'Gs[%d]' is not an integer" %k)
     if hs is None: hs = []
     if not isinstance(hs,list) or len(hs) != len(ms) \
       or [ h for h in hs if not isinstance(h,(matrix,spmatrix)) or h.typecode != 'd' ]:
